@@ -6,7 +6,12 @@ Decided:
          written through; mutable containers taken from them are copied before being kept; attributes that
          remain aliases (methods) are not mutated by anything in the package after construction; the same
          for Route.__init__ (copies caller-supplied containers), SubApplication.bind_all (fresh list, never
-         writes self.app) and merge_middlewares (only mutates its own fresh list); and at request time: no heap
+         writes self.app) and merge_middlewares (only mutates its own fresh list); the same through the analysed
+         functions these call (``Provenance``): whatever a callee updates in place -- one of its parameters, through
+         local aliases, ``p or {}``, or by handing it on -- is at that call an object the binding allocated, and a
+         container a callee hands back is judged as what its returns hand out, its parameters read as the arguments
+         of the call (a helper that merges *into* the mapping it is handed writes the application's resources into
+         the route, whoever used to own the copy); and at request time: no heap
          effect reachable from Application.__call__ has a Route / BoundRoute / Application (or a local alias of one
          of their containers) as receiver, and an object instantiated per request (DispatchState, the exception
          family) that updates one of its fields in place only lets containers of its own flow into that field --
@@ -17,7 +22,9 @@ Decided:
          insertions and index arithmetic follow;
   R11.c  who may write a routing table (= R06.a; private helpers a permitted writer was split into count as that
          writer), and the requested index is honoured: the first new route goes to ``index`` when one was given (0
-         included) and to len(self.routes) otherwise, whichever way the position is carried;
+         included) and to len(self.routes) otherwise, whichever way the position is carried; the block keeps its own
+         order: front to back with a position advancing by one per route, or back to front at a fixed position that
+         exists in the table (``list.insert`` appends for a position past the end, which reverses the block);
   R11.d  process-wide state inventory: every write to a module-level object anywhere in the package is in
          the frozen table (request-id counter advanced in _dispatch_wsgi; converter tables written by
          _register_converter, called at import only; ERROR_CODE_MAP/__all__ by _module_init, import only;
@@ -26,7 +33,8 @@ Decided:
          middlewares, slash mode, error renderer -- is computed in BoundRoute.__init__ from the route *being re-bound*
          (``route.X``) and the binding application, never from the original unbound route (which only supplies what
          no binding changes: endpoint, render argument, methods): an application that was itself built by embedding
-         is served under a further prefix exactly as it serves on its own, however often it is embedded.
+         is served under a further prefix exactly as it serves on its own, however often it is embedded; reads made
+         by analysed functions the constructor hands the route / application to count as reads of the constructor.
 Declined: behavioural equality of responses before/after (needs running); state inside third-party objects.
 
 Values are judged where they flow (``effects.Flow``: reaching definitions, path conditions), not by the name of the local
@@ -79,6 +87,304 @@ def fresh_container(fl, fi, leaf, repo=None, _depth=0):
                                                                   call_name(v) in ('copy.copy', 'copy.deepcopy'))):
         return True
     return isinstance(v, (ast.BinOp, ast.Dict, ast.List, ast.Set, ast.ListComp, ast.DictComp, ast.SetComp))
+
+
+class Origin(object):
+    """Where an object comes from, seen from one activation: kind 'fresh' (allocated in this activation, or immutable),
+    'param' (the object parameter ``name`` held on entry -- ``via``: something reached from it through attributes /
+    items / elements), 'global' (a module-level object ``name``), 'library' (handed out by a call of an imported / builtin
+    callable: state inside third-party objects is declined) or 'unknown' (``why``)."""
+    __slots__ = ('kind', 'name', 'via', 'node', 'why')
+
+    def __init__(self, kind, node, name=None, via=False, why=''):
+        self.kind, self.node, self.name, self.via, self.why = kind, node, name, via, why
+
+    def text(self):
+        if self.kind == 'param':
+            return 'an object reached from parameter %s' % self.name if self.via else 'the object passed as parameter %s' % self.name
+        if self.kind == 'global':
+            return 'module-level object %s' % self.name
+        return short(self.node, 40)
+
+    def __repr__(self):
+        return '<Origin %s %s%s %s>' % (self.kind, self.name or '', '~' if self.via else '', self.why or short(self.node, 30))
+
+
+FRESH_DISPLAYS = (ast.BinOp, ast.Dict, ast.List, ast.Set, ast.Tuple, ast.ListComp, ast.DictComp, ast.SetComp, ast.GeneratorExp, ast.JoinedStr,
+                  ast.Compare, ast.Lambda, ast.UnaryOp)
+ELEMENT_TAILS = {'get', 'pop', 'setdefault', 'popitem', 'popleft', '__getitem__'}
+
+
+class Provenance(object):
+    """Which pre-existing objects a value can denote, through the analysed helpers a function calls.
+
+    ``origins(fi, expr, at)``: every object ``expr`` can denote at statement ``at`` of ``fi`` as an ``Origin`` -- reaching
+    definitions (``Flow.leaves``), both operands of ``a or b``, attribute / item / getattr chains (a part of the base),
+    the elements a loop / an unpacking binds (a part of the iterated value), and the result of a call of an analysed
+    function: what its ``return`` statements hand out, with its parameters replaced by the arguments of this call.
+    ``mutated_params(callee)``: the parameters whose object (or something reached from it) the callee may update in place
+    -- stores, deletes, mutating calls, in-place augmented assignment on a local that can hold it, and handing it on to
+    a further analysed function that does."""
+
+    def __init__(self, repo, max_depth=4):
+        self.repo = repo
+        self.max_depth = max_depth
+        self._flows = {}
+        self._mut = {}
+
+    def flow(self, fi):
+        if fi.key not in self._flows:
+            self._flows[fi.key] = Flow(fi)
+        return self._flows[fi.key]
+
+    def callee(self, fi, call):
+        """The analysed function a call names: module-level function, method through self / cls, ``module.function``."""
+        c = effects.callee_of(self.repo, fi, call)
+        f = call.func if isinstance(call, ast.Call) else None
+        if c is None and isinstance(f, ast.Attribute) and isinstance(f.value, ast.Name) and f.value.id not in fi.params():
+            try:
+                kind, m, _ = self.repo.resolve(fi.mod, f.value.id)
+                if kind == 'module' and m is not None and not m.external:
+                    k2, m2, obj = self.repo.resolve(m, f.attr)
+                    if k2 == 'func' and m2 is not None and not m2.external:
+                        c = obj
+            except Exception:
+                return None
+        return c
+
+    # -- arguments ------------------------------------------------------------------------------------------------------
+    def bind_args(self, callee, call):
+        """{parameter: argument expression} of a call of ``callee`` (``self`` of a method call: the receiver); None when
+        the correspondence cannot be read (star arguments)."""
+        a = callee.node.args
+        pos = [x.arg for x in a.posonlyargs + a.args]
+        if any(isinstance(x, ast.Starred) for x in call.args):
+            return None
+        out = {}
+        static = any(isinstance(d, ast.Name) and d.id == 'staticmethod' for d in callee.node.decorator_list)
+        if callee.cls is not None and not static and isinstance(call.func, ast.Attribute) and pos:       # receiver.method(...)
+            out[pos[0]] = call.func.value
+            pos = pos[1:]
+        for p, x in zip(pos, call.args):
+            out[p] = x
+        if len(call.args) > len(pos) and a.vararg is None:
+            return None
+        for k in call.keywords:
+            if k.arg is None:
+                if a.kwarg is None:
+                    return None
+                continue
+            out[k.arg] = k.value
+        return out
+
+    def default_of(self, callee, name):
+        a = callee.node.args
+        pos = a.posonlyargs + a.args
+        d = dict(zip([x.arg for x in pos[len(pos) - len(a.defaults):]], a.defaults))
+        d.update((x.arg, v) for x, v in zip(a.kwonlyargs, a.kw_defaults) if v is not None)
+        return d.get(name)
+
+    # -- origins ----------------------------------------------------------------------------------------------------------
+    def origins(self, fi, expr, at, depth=0, seen=frozenset(), via=False):
+        if depth > self.max_depth:
+            return [Origin('unknown', expr, why='value followed through more than %d functions' % self.max_depth)]
+        fl = self.flow(fi)
+        out = []
+        for lf in fl.leaves(expr, at):
+            st = lf.stmt if isinstance(lf.stmt, ast.AST) else at
+            k = ('leaf', id(lf.value), id(lf.stmt))
+            if k in seen:
+                continue            # x = x.next in a loop: already being followed
+            for o in self._leaf(fi, fl, lf, st, depth, seen | {k}):
+                if via and o.kind == 'param':
+                    o.via = True
+                out.append(o)
+        return out
+
+    def _part_of(self, fi, base, st, depth, seen):
+        out = []
+        for o in self.origins(fi, base, st, depth, seen, via=True):
+            out.append(o)
+        return out
+
+    def _leaf(self, fi, fl, lf, st, depth, seen):
+        v = lf.value
+        a = fi.node.args
+        if lf.opaque:
+            s = lf.stmt
+            if isinstance(s, ast.AugAssign) and slot_key(s.target) is not None and (id(s), 'aug') not in seen:
+                before = [b for b in fl.leaves(s.target, s) if b.stmt is not s]
+                out = []
+                for b in before:
+                    out.extend(self._leaf(fi, fl, b, b.stmt if isinstance(b.stmt, ast.AST) else st, depth, seen | {(id(s), 'aug')}))
+                if out:
+                    return out
+            if isinstance(s, (ast.For, ast.AsyncFor)) and (id(s), 'iter') not in seen:
+                return self.origins(fi, s.iter, s, depth, seen | {(id(s), 'iter')}, via=True)       # an element of what is iterated
+            if isinstance(s, ast.Assign) and v is s.value and (id(s), 'unpack') not in seen:
+                return self.origins(fi, v, s, depth, seen | {(id(s), 'unpack')}, via=True)           # an element of what is unpacked
+            return [Origin('unknown', v, why='%s is bound by %s' % (short(v, 30), short(s, 40) if isinstance(s, ast.AST) else 'an unknown definition'))]
+        if isinstance(v, ast.Constant):
+            return [Origin('fresh', v)]
+        if isinstance(v, ast.BoolOp):
+            out = []
+            for o in v.values:
+                out.extend(self.origins(fi, o, st, depth, seen))
+            return out
+        if isinstance(v, ast.NamedExpr):
+            return self.origins(fi, v.value, st, depth, seen)
+        if isinstance(v, ast.Starred):
+            return self.origins(fi, v.value, st, depth, seen, via=True)
+        if isinstance(v, ast.Name):
+            if a.kwarg is not None and a.kwarg.arg == v.id or a.vararg is not None and a.vararg.arg == v.id:
+                return [Origin('fresh', v)]             # *args / **kwargs are built per call
+            if v.id in fi.params():
+                return [Origin('param', v, v.id)]
+            kind = self.repo.resolve(fi.mod, v.id)[0]
+            if kind in ('class', 'func', 'external', 'module'):
+                return [Origin('fresh', v)]             # not a container of a route / an application
+            if v.id in fi.mod.assigns or v.id in fi.mod.imports:
+                return [Origin('global', v, v.id)]
+            return [Origin('unknown', v, why='free name %s' % v.id)]
+        if isinstance(v, (ast.Attribute, ast.Subscript)):
+            return self._part_of(fi, v.value, st, depth, seen)
+        if isinstance(v, ast.Call):
+            f = v.func
+            if call_name(v) == 'getattr' and len(v.args) in (2, 3) and not v.keywords:
+                out = self._part_of(fi, v.args[0], st, depth, seen)
+                if len(v.args) == 3:
+                    out = out + self.origins(fi, v.args[2], st, depth, seen)
+                return out
+            callee = self.callee(fi, v)
+            if callee is not None:
+                return self._result_of(fi, v, callee, st, depth, seen)
+            if isinstance(f, ast.Name):
+                if f.id in COPY_CALLS or f.id in effects.FRESH_CALLS or f.id in effects.IMMUTABLE_CALLS or \
+                        self.repo.resolve(fi.mod, f.id)[0] == 'class':
+                    return [Origin('fresh', v)]
+                return [Origin('library' if self._library(fi, fl, f) else 'unknown', v, why='result of %s' % short(v, 40))]
+            if call_name(v) in ('copy.copy', 'copy.deepcopy'):
+                return [Origin('fresh', v)]
+            if isinstance(f, ast.Attribute):
+                if f.attr in COPYING_TAILS or f.attr in effects.COPY_METHODS or f.attr in effects.IMMUTABLE_METHODS:
+                    return [Origin('fresh', v)]
+                if f.attr in ELEMENT_TAILS:
+                    out = self._part_of(fi, f.value, st, depth, seen)
+                    for x in v.args[1:]:
+                        out = out + self.origins(fi, x, st, depth, seen)     # the default handed back / stored
+                    return out
+            return [Origin('library' if self._library(fi, fl, f) else 'unknown', v, why='result of %s' % short(v, 40))]
+        if isinstance(v, FRESH_DISPLAYS):
+            return [Origin('fresh', v)]
+        return [Origin('unknown', v, why='value %s' % short(v, 40))]
+
+    def _library(self, fi, fl, f):
+        """The callable is named through an import (a function, class or module that is not part of the analysed package,
+        or a builtin): what it hands out is that library's business ('library' -- not a parameter of ours, not provably a
+        new object either)."""
+        base = f
+        while isinstance(base, ast.Attribute):
+            base = base.value
+        if not isinstance(base, ast.Name) or base.id in fl.defs or base.id in fi.params() or base.id in ('self', 'cls'):
+            return False
+        kind, m, _ = self.repo.resolve(fi.mod, base.id)
+        if kind == 'external' or (kind == 'module' and (m is None or m.external)):
+            return True
+        if kind in ('func', 'class'):
+            return m is not None and m.external
+        import builtins
+        return kind == 'unknown' and base.id not in fi.mod.assigns and hasattr(builtins, base.id)
+
+    def _result_of(self, fi, call, callee, st, depth, seen):
+        """What an analysed function hands out, in terms of the caller's values."""
+        if effects.returns_fresh(self.repo, callee):
+            return [Origin('fresh', call)]
+        if (callee.key, 'ret') in seen:
+            return []
+        rets = [r for r in returns_of(callee) if r.value is not None]
+        if not rets or any(isinstance(n, (ast.Yield, ast.YieldFrom)) for n in walk_body(callee.node)) or isinstance(callee.node, ast.Lambda):
+            return [Origin('unknown', call, why='result of %s could not be followed' % callee.qualname)]
+        bound = self.bind_args(callee, call)
+        out = []
+        for r in rets:
+            for o in self.origins(callee, r.value, r, depth + 1, seen | {(callee.key, 'ret')}):
+                out.extend(self._to_caller(fi, call, callee, bound, o, st, depth, seen))
+        return out
+
+    def _to_caller(self, fi, call, callee, bound, o, st, depth, seen):
+        """An origin established inside ``callee``, restated for the activation that made ``call``."""
+        if o.kind in ('fresh', 'global', 'library'):
+            return [o]
+        if o.kind == 'unknown':
+            return [Origin('unknown', call, why='%s: %s' % (callee.qualname, o.why))]
+        if bound is None:
+            return [Origin('unknown', call, why='arguments of %s could not be matched with its parameters' % short(call, 40))]
+        if o.name not in bound:
+            d = self.default_of(callee, o.name)
+            if d is None:
+                return [Origin('unknown', call, why='parameter %s of %s is not passed' % (o.name, callee.qualname))]
+            if isinstance(d, ast.Constant):
+                return [Origin('fresh', d)]
+            # a default is evaluated once: the same object in every call
+            return [Origin('global', d, 'default %s of %s(%s)' % (short(d, 20), callee.qualname, o.name))]
+        return self.origins(fi, bound[o.name], st, depth, seen, via=o.via)
+
+    # -- what a function updates in place ---------------------------------------------------------------------------------
+    def mutated_params(self, callee, depth=0):
+        """{parameter: (node of the first update, text)}; key None: an update whose receiver could not be established."""
+        if callee.key in self._mut:
+            return self._mut[callee.key]
+        self._mut[callee.key] = {}          # recursion guard
+        out = {}
+        if isinstance(callee.node, ast.Lambda) or not hasattr(callee, 'params'):
+            self._mut[callee.key] = out
+            return out
+        sites = []
+        for e in effects.effects_in(callee.node):
+            if e.kind == 'mutcall' or e.method in ('setattr', 'delattr'):
+                obj = e.target
+            elif isinstance(e.target, (ast.Attribute, ast.Subscript)):
+                obj = e.target.value
+            else:
+                continue
+            sites.append((obj, e.node))
+        for e in effects.aug_name_effects(callee.node):
+            if effects.aug_in_place(e.node) and not effects.aug_rebinds(e.node) and not effects.known_immutable(callee, e.node.value):
+                sites.append((e.target, e.node))
+        for obj, node in sites:
+            st = stmt_of(callee.mod, node)
+            if isinstance(node, ast.AugAssign) and isinstance(obj, ast.Name):
+                obj = ast.copy_location(ast.Name(id=obj.id, ctx=ast.Load()), obj)
+            for o in self.origins(callee, obj, st, depth):
+                if o.kind == 'param':
+                    out.setdefault(o.name, (node, short(node, 50)))
+                elif o.kind == 'unknown':
+                    out.setdefault(None, (node, '%s (%s)' % (short(node, 50), o.why)))
+        if depth < self.max_depth:
+            for c in walk_body(callee.node):
+                if not isinstance(c, ast.Call):
+                    continue
+                sub = self.callee(callee, c)
+                if sub is None or sub is callee:
+                    continue
+                ms = self.mutated_params(sub, depth + 1)
+                if not ms:
+                    continue
+                bound = self.bind_args(sub, c)
+                st = stmt_of(callee.mod, c)
+                for p, (node, text) in ms.items():
+                    if p is None:
+                        continue
+                    if bound is None:
+                        out.setdefault(None, (c, '%s (arguments not matched)' % short(c, 50)))
+                        continue
+                    if p not in bound:
+                        continue
+                    for o in self.origins(callee, bound[p], st, depth):
+                        if o.kind == 'param':
+                            out.setdefault(o.name, (c, '%s -> %s' % (short(c, 40), text)))
+        self._mut[callee.key] = out
+        return out
 
 
 class HelperClosure(object):
@@ -475,10 +781,11 @@ class Ownership(object):
 ACCUMULATED_ATTRS = ('pattern', 'bound_apps', 'resources', 'middlewares', 'slash_mode', 'render_error')
 
 
-def contributions(fl, fi, slot):
+def contributions(fl, fi, slot, stop=()):
     """Every expression that can influence what ``slot`` holds at the end of ``fi``, flow-insensitively: the values
     assigned to it (``x op= v``: v), the arguments of mutating calls on it, and -- transitively -- the same for every
-    local / self-attribute those expressions mention.  -> (expressions, slots followed)"""
+    local / self-attribute those expressions mention (slots in ``stop`` are recorded but not looked into).
+    -> (expressions, slots followed)"""
     seen, exprs, todo = set(), [], [slot]
     muts = [e for e in effects.effects_in(fi.node) if e.kind == 'mutcall']
     while todo:
@@ -486,6 +793,8 @@ def contributions(fl, fi, slot):
         if k in seen:
             continue
         seen.add(k)
+        if k in stop and k != slot:
+            continue
         vals = []
         for d in fl.defs.get(k, []):
             if d.kind == 'aug':
@@ -505,6 +814,96 @@ def contributions(fl, fi, slot):
     return exprs, seen
 
 
+class _ReadCtx(object):
+    """One activation R11.e reads attribute loads in: the function, its value flow, and whose object each parameter is
+    ('route': the route being re-bound, 'app': the binding application, 'original': the unbound route, 'other')."""
+
+    def __init__(self, fi, fl, env):
+        self.fi, self.fl, self.env = fi, fl, env
+
+
+def _owner_kinds(r, ctx, depth=0):
+    """Whose attribute is read: 'route' (the route being re-bound), 'app' (the binding application or something it
+    owns), 'original' (the unbound route), 'other'."""
+    fl = ctx.fl
+    if depth > 6:
+        return {'other'}
+    if isinstance(r, ast.IfExp):
+        return _owner_kinds(r.body, ctx, depth + 1) | _owner_kinds(r.orelse, ctx, depth + 1)
+    if isinstance(r, ast.BoolOp):
+        return set().union(*[_owner_kinds(v, ctx, depth + 1) for v in r.values])
+    if isinstance(r, ast.Call) and call_name(r) == 'getattr' and len(r.args) in (2, 3) and isinstance(r.args[1], ast.Constant):
+        if r.args[1].value == 'unbound_route':
+            dflt = r.args[2] if len(r.args) == 3 else None
+            # getattr(route, 'unbound_route', route): the route itself only when it *is* the unbound one
+            extra = set()
+            if dflt is not None and not isinstance(dflt, ast.Constant) and _owner_kinds(dflt, ctx, depth + 1) != {'route'}:
+                extra = _owner_kinds(dflt, ctx, depth + 1)
+            return {'original'} | extra
+        r = r.args[0]
+        return {'app'} if _owner_kinds(r, ctx, depth + 1) == {'app'} else {'other'}
+    if isinstance(r, ast.Attribute):
+        if r.attr == 'unbound_route':
+            return {'original'}
+        k = slot_key(r)
+        if k is not None and k in fl.defs:
+            out = set()
+            for d in fl.defs[k]:
+                out |= _owner_kinds(d.value, ctx, depth + 1) if d.kind == 'assign' and d.idx is None and d.value is not None else {'other'}
+            return out
+        inner = _owner_kinds(r.value, ctx, depth + 1)
+        if 'original' in inner:
+            return {'original'}
+        return {'app'} if inner == {'app'} else {'other'}
+    if isinstance(r, ast.Name):
+        if r.id in ctx.env:
+            return set(ctx.env[r.id])
+        if r.id in fl.defs:
+            out = set()
+            for d in fl.defs[r.id]:
+                out |= _owner_kinds(d.value, ctx, depth + 1) if d.kind == 'assign' and d.idx is None and d.value is not None else {'other'}
+            return out
+    return {'other'}
+
+
+def _attr_reads(repo, ctx, exprs, attr, skip_slot=None, depth=0, seen=frozenset()):
+    """-> (reads [(owner kinds, node)], calls of analysed functions that could not be followed): every load of ``.attr``
+    (``x.attr`` / ``getattr(x, 'attr'[, d])``) among the expressions, and -- through calls of analysed functions -- among
+    everything that can influence what those functions return, their parameters standing for this call's arguments."""
+    reads, unfollowed = [], []
+    prov = Provenance(repo)
+    for e in exprs:
+        for n in ast.walk(e):
+            if isinstance(n, ast.Attribute) and n.attr == attr and isinstance(n.ctx, ast.Load) and (skip_slot is None or slot_key(n) != skip_slot):
+                reads.append((_owner_kinds(n.value, ctx), n))
+            elif isinstance(n, ast.Call) and call_name(n) == 'getattr' and len(n.args) in (2, 3) and \
+                    isinstance(n.args[1], ast.Constant) and n.args[1].value == attr:
+                reads.append((_owner_kinds(n.args[0], ctx), n))
+            elif isinstance(n, ast.Call):
+                callee = effects.callee_of(repo, ctx.fi, n)
+                if callee is None or isinstance(callee.node, ast.Lambda):
+                    continue
+                bound = prov.bind_args(callee, n)
+                rets = [r.value for r in returns_of(callee) if r.value is not None]
+                if bound is None or depth >= 3 or callee.key in seen or not rets:
+                    unfollowed.append(n)
+                    continue
+                env = dict((p_, _owner_kinds(x, ctx)) for p_, x in bound.items())
+                cfl = Flow(callee)
+                sub = _ReadCtx(callee, cfl, env)
+                inner = list(rets)
+                for rv in rets:
+                    for m in ast.walk(rv):
+                        if isinstance(m, (ast.Name, ast.Attribute)) and isinstance(getattr(m, 'ctx', None), ast.Load):
+                            kk = slot_key(m)
+                            if kk is not None:
+                                inner.extend(contributions(cfl, callee, kk)[0])
+                r2, u2 = _attr_reads(repo, sub, inner, attr, None, depth + 1, seen | {callee.key})
+                reads.extend(r2)
+                unfollowed.extend(u2)
+    return reads, unfollowed
+
+
 def check_rebinding_composes(rep, repo, route, bi):
     """R11.e: see the module docstring."""
     fl = Flow(bi)
@@ -512,62 +911,16 @@ def check_rebinding_composes(rep, repo, route, bi):
     if len(ps) < 3:
         raise AnalysisError('BoundRoute.__init__: parameters (route, app) not found')
     rp, ap = ps[1], ps[2]
-
-    def kinds(r, depth=0):
-        """Whose attribute is read: 'route' (the route being re-bound), 'app' (the binding application or something it
-        owns), 'original' (the unbound route), 'other'."""
-        if depth > 6:
-            return {'other'}
-        if isinstance(r, ast.IfExp):
-            return kinds(r.body, depth + 1) | kinds(r.orelse, depth + 1)
-        if isinstance(r, ast.BoolOp):
-            return set().union(*[kinds(v, depth + 1) for v in r.values])
-        if isinstance(r, ast.Call) and call_name(r) == 'getattr' and len(r.args) in (2, 3) and isinstance(r.args[1], ast.Constant):
-            if r.args[1].value == 'unbound_route':
-                return {'original'} | (kinds(r.args[2], depth + 1) if len(r.args) == 3 and not isinstance(r.args[2], ast.Constant) and
-                                       norm(r.args[2]) != rp else set())
-            r = r.args[0]
-            return {'app'} if kinds(r, depth + 1) == {'app'} else {'other'}
-        if isinstance(r, ast.Attribute):
-            if r.attr == 'unbound_route':
-                return {'original'}
-            k = slot_key(r)
-            if k is not None and k in fl.defs:
-                out = set()
-                for d in fl.defs[k]:
-                    out |= kinds(d.value, depth + 1) if d.kind == 'assign' and d.idx is None and d.value is not None else {'other'}
-                return out
-            inner = kinds(r.value, depth + 1)
-            if 'original' in inner:
-                return {'original'}
-            return {'app'} if inner == {'app'} else {'other'}
-        if isinstance(r, ast.Name):
-            if r.id == rp:
-                return {'route'}
-            if r.id == ap:
-                return {'app'}
-            if r.id in fl.defs:
-                out = set()
-                for d in fl.defs[r.id]:
-                    out |= kinds(d.value, depth + 1) if d.kind == 'assign' and d.idx is None and d.value is not None else {'other'}
-                return out
-        return {'other'}
+    ctx = _ReadCtx(bi, fl, {rp: {'route'}, ap: {'app'}})
 
     for attr in ACCUMULATED_ATTRS:
         slot = 'self.%s' % attr
         if not fl.defs.get(slot):
             raise AnalysisError('BoundRoute.__init__: self.%s is not assigned here' % attr)
         exprs, _ = contributions(fl, bi, slot)
-        reads = []
-        for e in exprs:
-            for n in ast.walk(e):
-                if isinstance(n, ast.Attribute) and n.attr == attr and isinstance(n.ctx, ast.Load) and slot_key(n) != slot:
-                    reads.append((n.value, n))
-                elif isinstance(n, ast.Call) and call_name(n) == 'getattr' and len(n.args) in (2, 3) and \
-                        isinstance(n.args[1], ast.Constant) and n.args[1].value == attr:
-                    reads.append((n.args[0], n))
-        original = [(r, n) for r, n in reads if 'original' in kinds(r)]
-        from_route = [(r, n) for r, n in reads if 'route' in kinds(r)]
+        reads, unfollowed = _attr_reads(repo, ctx, exprs, attr, slot)
+        original = [(r, n) for r, n in reads if 'original' in r]
+        from_route = [(r, n) for r, n in reads if 'route' in r]
         key = fkey(bi, 'self.%s builds on route.%s' % (attr, attr))
         if original:
             n = original[0][1]
@@ -577,8 +930,6 @@ def check_rebinding_composes(rep, repo, route, bi):
                      (attr, short(n, 50), attr), route, n)
             continue
         if not from_route:
-            unfollowed = [c for e in exprs for c in ast.walk(e) if isinstance(c, ast.Call) and effects.callee_of(repo, bi, c) is not None
-                          and effects.callee_of(repo, bi, c).name.startswith('_')]
             if unfollowed:
                 raise AnalysisError('BoundRoute.__init__: self.%s is computed by %s, which could not be followed' % (attr, short(unfollowed[0], 40)))
             rep.fail('R11.e', key, 'self.%s does not build on %s.%s (the route being re-bound): re-binding drops what earlier bindings accumulated' %
@@ -640,6 +991,9 @@ def run(rep):
 
     # ---- R11.a -----------------------------------------------------------
     def r11a():
+        prov = Provenance(repo)
+        gaps = []
+
         def readonly_params(fi, ro, label):
             fresh = effects.fresh_locals(repo, fi)
             # aliases of read-only parameters: x = getattr(param, ...), x = param.attr, x = param
@@ -668,6 +1022,49 @@ def run(rep):
                 rep.check('R11.a', fkey(fi, e.node), ok, 'writes %s (own / fresh object)' % root if ok else
                           '%s writes through %s, which is (an alias of) a %s being bound: binding must not modify the original' % (fi.qualname, root, label),
                           fi.mod, e.node)
+            # the same through the analysed functions it calls: whatever a callee updates in place (one of its parameters,
+            # through local aliases, or by handing it on) is, at this call, an object this activation allocated -- never
+            # one that existed before (the route / application being bound, one of their containers, a caller's argument)
+            for c in walk_body(fi.node):
+                callee = prov.callee(fi, c) if isinstance(c, ast.Call) else None
+                if callee is None or callee is fi:
+                    continue
+                ms = prov.mutated_params(callee)
+                if not ms:
+                    continue
+                bound = prov.bind_args(callee, c)
+                st = stmt_of(fi.mod, c)
+                bad, unk = [], []
+                for p in sorted(ms, key=str):
+                    node, text = ms[p]
+                    if p is None:
+                        unk.append('%s updates %s' % (callee.qualname, text))
+                        continue
+                    if bound is None:
+                        unk.append('arguments of %s not matched with its parameters' % short(c, 40))
+                        continue
+                    if p not in bound:
+                        d = prov.default_of(callee, p)
+                        if d is not None and not isinstance(d, ast.Constant):
+                            bad.append((p, 'the default %s, created once and shared by every call' % short(d, 30), text))
+                        continue
+                    for o in prov.origins(fi, bound[p], st):
+                        if o.kind == 'fresh' or (o.kind == 'param' and o.name == 'self'):
+                            continue
+                        if o.kind in ('unknown', 'library'):
+                            unk.append('%s handed to %s(%s): %s' % (short(bound[p], 30), callee.qualname, p, o.why))
+                            continue
+                        bad.append((p, '%s (%s)' % (short(bound[p], 50), o.text()), text))
+                if unk and not bad:
+                    gaps.append('%s: %s' % (fi.qualname, unk[0]))
+                    continue
+                n += 1
+                rep.check('R11.a', fkey(fi, 'callee %s' % norm(c)[:70]), not bad,
+                          '%s updates its parameter(s) %s in place; here those are objects built by this activation' %
+                          (callee.qualname, ', '.join(str(p) for p in sorted(ms, key=str) if p is not None)) if not bad else
+                          '%s hands %s to %s as %s, and %s updates that parameter in place (%s): the %s is modified by the binding -- it '
+                          'must behave afterwards exactly as before, however often it is bound' %
+                          (fi.qualname, bad[0][1], callee.qualname, bad[0][0], callee.qualname, bad[0][2], label), fi.mod, c)
             return n
         bi = route.func('BoundRoute.__init__')
         n1 = readonly_params(bi, set(bi.params()[1:3]), 'route/application')
@@ -713,10 +1110,33 @@ def run(rep):
             stores = fl.defs.get('self.%s' % attr, [])
             if not stores:
                 lv = []
-            ok = bool(lv) and all(fresh_container(fl, fi, l, repo) for l in lv)
-            bad = [l for l in lv if not fresh_container(fl, fi, l, repo)]
+            through = {}
+
+            def allocated_here(l):
+                callee = prov.callee(fi, l.value) if isinstance(l.value, ast.Call) and not l.opaque else None
+                try:
+                    ok = fresh_container(fl, fi, l, repo)
+                    if ok or callee is None:
+                        return ok
+                    err = '%s: value computed by %s could not be followed' % (fi.qualname, callee.qualname)
+                except AnalysisError as e:
+                    err = e
+                # the result of an analysed function: what its returns hand out, its parameters read as the
+                # arguments of this call -- a mapping / list allocated by this binding, or one that existed before
+                os_ = prov.origins(fi, l.value, l.stmt if isinstance(l.stmt, ast.AST) else 'exit')
+                kept = [o for o in os_ if o.kind in ('param', 'global') and not (o.kind == 'param' and o.name == 'self')]
+                if kept:
+                    through[id(l)] = kept[0]
+                    return False
+                unk = [o for o in os_ if o.kind != 'fresh']
+                if unk or not os_:
+                    raise AnalysisError('%s (%s)' % (err, unk[0].why or unk[0].text() if unk else 'no value'))
+                return True
+            bad = [l for l in lv if not allocated_here(l)]
+            ok = bool(lv) and not bad
             rep.check('R11.a', fkey(fi, 'self.%s is a copy' % attr), ok, 'self.%s = %s (fresh container)' % (attr, ' | '.join(short(l.value, 50) for l in lv)) if ok else
-                      '%s: self.%s aliases a container of %s: %s' % (fi.qualname, attr, who, [short(l.value) for l in bad] or 'never assigned'), mod_,
+                      '%s: self.%s aliases a container of %s: %s' % (fi.qualname, attr, who, [
+                          short(l.value) + (' hands back %s' % through[id(l)].text() if id(l) in through else '') for l in bad] or 'never assigned'), mod_,
                       (bad[0].stmt if bad and isinstance(bad[0].stmt, ast.AST) else None) or (stores[-1].stmt if stores else fi.node))
 
         bfl = Flow(bi)
@@ -769,6 +1189,8 @@ def run(rep):
                               'constructor-time mutation of the object\'s own container' if ok else
                               '%s mutates .%s of an existing route/application object (shared with everything it was bound into)' % (fi.key, hit[0]),
                               m, e.node)
+        if gaps:
+            raise AnalysisError('; '.join(gaps[:3]))
     rep_guard(r11a)
 
     def request_time():
@@ -902,6 +1324,10 @@ def run(rep):
                 rest = [a for a in it.args if not (isinstance(a, ast.Call) and call_name(a) in ('itertools.count', 'count', 'range'))]
                 if len(rest) == 1 and len(it.args) == 2:
                     it = rest[0]
+            if isinstance(it, ast.Call) and call_name(it) == 'reversed' and len(it.args) == 1 and not it.keywords:
+                it = it.args[0]             # walking a complete list back to front binds nothing lazily (the order is R11.c's)
+            elif isinstance(it, ast.Subscript) and norm(it.slice) == '::-1':
+                it = it.value
             for lf in afl.leaves(it, l):
                 v = lf.value
                 srcs.append(lf)
@@ -1003,20 +1429,95 @@ def run(rep):
             else:
                 raise AnalysisError('Application.add: insertion position %s not understood' % short(pos, 40))
             lv = [l for l in fl.leaves(start_expr, loop) if not (isinstance(l.stmt, ast.AST) and l.stmt in stmts_of(loop))]
+            def leaf_ok(l, extra=(), depth=0):
+                txt = fl.text(l.value, l.stmt) if isinstance(l.stmt, ast.AST) else norm(l.value)
+                prem = pr.conds(list(extra) + [c for c in l.conds if c not in extra])
+                if not l.opaque and txt == idx:
+                    return pr.implies(prem, given)
+                if not l.opaque and txt == 'len(self.routes)':
+                    return pr.implies(prem, ('n', given))
+                v = l.value
+                if not l.opaque and depth < 3 and isinstance(v, ast.Call) and call_name(v) == 'min' and len(v.args) == 2 and not v.keywords and \
+                        isinstance(l.stmt, ast.AST):
+                    # min(position, len(self.routes)): list.insert itself treats a position past the end as the end
+                    rest = [a for a in v.args if fl.text(a, l.stmt) != 'len(self.routes)']
+                    if len(rest) == 1:
+                        sub = fl.leaves(rest[0], l.stmt)
+                        return bool(sub) and all(leaf_ok(x, list(extra) + [c for c in l.conds if c not in extra], depth + 1) for x in sub)
+                return False
             try:
-                ok = bool(lv)
-                for l in lv:
-                    txt = fl.text(l.value, l.stmt) if isinstance(l.stmt, ast.AST) else norm(l.value)
-                    prem = pr.conds(l.conds)
-                    if not l.opaque and txt == idx:
-                        ok = ok and pr.implies(prem, given)
-                    elif not l.opaque and txt == 'len(self.routes)':
-                        ok = ok and pr.implies(prem, ('n', given))
-                    else:
-                        ok = False
+                ok = bool(lv) and all(leaf_ok(l) for l in lv)
             except Unknown as e:
                 raise AnalysisError('Application.add: conditions of the insertion position not understood (%s)' % e)
             return ok, lv, st
+        def block_order(ad, fl, call):
+            """The k-th new route ends up at position start + k: the list is walked front to back with a position that
+            advances by one per route (running local, enumerate / count offset), or back to front with a position that
+            stays where it is -- and then only when that position exists in the table, because ``list.insert`` turns a
+            position past the end into an append.  -> (ok, why)"""
+            st = stmt_of(app, call)
+            loops = [l for l in stmts_of(ad.node) if isinstance(l, ast.For) and st in stmts_of(l)]
+            if len(loops) != 1:
+                raise AnalysisError('Application.add: the insertion is not inside one loop')
+            loop = loops[0]
+            pos = call.args[0]
+            it = loop.iter
+            tg = loop.target.elts if isinstance(loop.target, ast.Tuple) else []
+            counter = None
+            if isinstance(it, ast.Call) and call_name(it) == 'enumerate' and it.args and tg and isinstance(tg[0], ast.Name):
+                counter, it = tg[0].id, it.args[0]
+            elif isinstance(it, ast.Call) and call_name(it) == 'zip' and len(it.args) == len(tg) == 2:
+                for a, t, other in ((it.args[0], tg[0], it.args[1]), (it.args[1], tg[1], it.args[0])):
+                    if isinstance(a, ast.Call) and call_name(a) in ('itertools.count', 'count', 'range') and isinstance(t, ast.Name):
+                        counter, it = t.id, other
+                        break
+            backward = False
+            for _ in range(2):
+                if isinstance(it, ast.Call) and call_name(it) == 'reversed' and len(it.args) == 1 and not it.keywords:
+                    backward, it = not backward, it.args[0]
+                elif isinstance(it, ast.Subscript) and norm(it.slice) == '::-1':
+                    backward, it = not backward, it.value
+            inner = stmts_of(loop)
+            names = [n.id for n in ast.walk(pos) if isinstance(n, ast.Name)]
+            if counter is not None and counter in names:
+                kind = 'counter'
+            else:
+                steps = [d for nm in names for d in fl.defs.get(nm, []) if d.stmt in inner]
+                if not steps:
+                    kind = 'fixed'
+                else:
+                    cfg = fl.cfg
+                    plus_one = all((isinstance(d.stmt, ast.AugAssign) and isinstance(d.stmt.op, ast.Add) and norm(d.stmt.value) == '1') or
+                                   (isinstance(d.stmt, ast.Assign) and norm(d.stmt.value) in ('%s + 1' % d.key, '1 + %s' % d.key)) for d in steps)
+                    each_time = len(steps) == 1 and isinstance(pos, ast.Name) and not [
+                        c for c in cfg.conds_at_stmt(steps[0].stmt) if c not in cfg.conds_at_stmt(st)] and not [
+                        c for c in cfg.conds_at_stmt(st) if c not in cfg.conds_at_stmt(steps[0].stmt)]
+                    if not (plus_one and each_time):
+                        return False, 'the position %s is not advanced by exactly one per inserted route (%s)' % (
+                            short(pos, 30), ', '.join(short(d.stmt, 30) for d in steps))
+                    kind = 'running'
+            if not backward:
+                if kind == 'fixed':
+                    return False, ('every route of the block is inserted at the same position %s while the list is walked front to back: '
+                                   'the block ends up reversed' % short(pos, 30))
+                return True, 'front to back, position advancing by one per route'
+            if kind != 'fixed':
+                return False, ('the list is walked back to front while the position %s advances: the block ends up reversed / interleaved '
+                               'with the existing routes' % short(pos, 30))
+            # back to front at a fixed position: in order only if that position exists (0 <= pos <= len(self.routes))
+            lv = fl.leaves(pos, loop)
+            within = bool(lv)
+            for l in lv:
+                txt = fl.text(l.value, l.stmt) if isinstance(l.stmt, ast.AST) else norm(l.value)
+                v = l.value
+                clamp = isinstance(v, ast.Call) and call_name(v) == 'min' and not v.keywords and \
+                    any(fl.text(a, l.stmt if isinstance(l.stmt, ast.AST) else loop) == 'len(self.routes)' for a in v.args)
+                within = within and not l.opaque and (txt == 'len(self.routes)' or clamp)
+            if within:
+                return True, 'back to front at a fixed position that exists in the table'
+            return False, ('the block is inserted back to front at the fixed position %s, which can lie past the end of the table (%s): '
+                           'list.insert then appends, so the new routes end up in reverse order -- not old[:i] + new + old[i:]' %
+                           (short(pos, 30), ' | '.join(short(l.value, 30) for l in lv)))
         ad = app.func('Application.add')
         fl = Flow(ad)
         pr = Prop(fl)
@@ -1033,6 +1534,10 @@ def run(rep):
         lv = seen_leaves
         rep.check('R11.c', fkey(ad, 'requested index'), ok, 'the first new route goes to the given index (0 included), or to the end when none was given' if ok else
                   'the insertion position is not "index if one was given, else len(self.routes)": %s' % [short(l.value, 40) for l in lv], app, st)
+        verdicts = [block_order(ad, fl, one) for one in ins_all]
+        bad = [why for ok_, why in verdicts if not ok_]
+        rep.check('R11.c', fkey(ad, 'block in order'), not bad, 'the new routes are inserted as one block in their own order (%s)' % verdicts[0][1] if not bad else
+                  'add() does not insert the new routes contiguously in their own order: %s' % bad[0], app, st)
     rep_guard(requested_index)
     rep_guard(rep.floor, 'R11.c', 3)
 
